@@ -1889,6 +1889,125 @@ def run_delta_arith(c):
 GATED_UNIT_ONLY = ("mass", "integrate-1", "integrate-h")
 
 
+def delta_dep_case(ctx):
+    """Delta + Delta where one Delta's log-density and/or point depends on the variable bound by the other
+    (an importance-weighted draw of y whose weight / location depends on an earlier draw x); both operand orders,
+    optionally a third independent Delta."""
+    c = dict(seed=ctx.rng.randrange(2 ** 31), xkind=ctx.rng.choice(["int", "int", "real"]),
+             dep=ctx.rng.choice(["ld", "ld", "point", "both"]), has_b=ctx.rng.random() < 0.6,
+             batched_x=ctx.rng.random() < 0.5, triple=ctx.rng.random() < 0.3)
+    ctx.count(f"delta-dep:{c['xkind']}:{c['dep']}:{'triple' if c['triple'] else 'pair'}")
+    res = run_delta_dep(c)
+    if res is None:
+        ctx.count("delta-dep:declined")
+        return
+    problems, counts = res
+    for k_ in counts:
+        ctx.count("delta-dep:" + k_)
+    if problems:
+        name, prob, exp_, got_ = problems[0]
+        w = dict(c)
+        w["problem"] = prob
+        ctx.fail("input", name, witness=w, expected=exp_, got=got_, python=DEP_PY.format(verif=str(_VERIF()), case=c))
+        return
+    ctx.case(sample=c, nontrivial_key=("delta-dep", str(c)))
+
+
+DEP_PY = """
+# replay for C14: Delta + Delta with a log-density / point depending on the other Delta's variable
+# (re-runs fv/harness/c14.py run_delta_dep on the recorded case: dense numpy oracle, both operand orders)
+import sys
+sys.path.insert(0, {verif!r})
+from fv.harness.c14 import run_delta_dep
+res = run_delta_dep({case!r})
+for p in (res[0] if res else []):
+    print(p)
+FAILS = bool(res and res[0])
+"""
+
+
+def run_delta_dep(c):
+    rs = np.random.RandomState(c["seed"])
+    nb_ = int(rs.randint(2, 4))
+    nx = int(rs.randint(2, 5))
+    binp = OrderedDict(b=Bint[nb_]) if c["has_b"] else OrderedDict()
+    bshape = (nb_,) if c["has_b"] else ()
+    xb = binp if c["batched_x"] else OrderedDict()
+    xshape = bshape if c["batched_x"] else ()
+    problems, counts = [], []
+    try:
+        with np.errstate(all="ignore"):
+            if c["xkind"] == "int":
+                px = rs.randint(0, nx, size=xshape)
+                d = Delta("x", Tensor(px, xb, nx))
+                wdat = np.round(rs.standard_normal(bshape + (nx,)) * 4) / 4
+                pdat = rs.choice([-1.0, 0.0, 0.5, 1.0, 2.0], size=bshape + (nx,))
+                xin = OrderedDict(list(binp.items()) + [("x", Bint[nx])])
+                w = Tensor(wdat, xin) if c["dep"] in ("ld", "both") else Tensor(wdat[..., 0], binp)
+                py = Tensor(pdat, xin) if c["dep"] in ("point", "both") else Tensor(pdat[..., 0], binp)
+                wpy = (lambda b, k: float(wdat[b + (int(k),)])) if c["dep"] in ("ld", "both") else (lambda b, k: float(wdat[b + (0,)]))
+                ppy = (lambda b, k: float(pdat[b + (int(k),)])) if c["dep"] in ("point", "both") else (lambda b, k: float(pdat[b + (0,)]))
+                xdom = nx
+            else:
+                px = rs.choice([-1.0, 0.5, 1.0, 2.0], size=xshape)
+                d = Delta("x", Tensor(px, xb))
+                xv = Variable("x", Real)
+                cw = rs.choice([-1.0, 0.5, 2.0], size=bshape)
+                cp = rs.choice([0.5, 1.0, 2.0], size=bshape)
+                w = (xv * Tensor(cw, binp) + 0.25) if c["dep"] in ("ld", "both") else Tensor(cw, binp)
+                py = (xv * 2.0 + Tensor(cp, binp)) if c["dep"] in ("point", "both") else Tensor(cp, binp)
+                wpy = (lambda b, k: float(cw[b] * k + 0.25)) if c["dep"] in ("ld", "both") else (lambda b, k: float(cw[b]))
+                ppy = (lambda b, k: float(2.0 * k + cp[b])) if c["dep"] in ("point", "both") else (lambda b, k: float(cp[b]))
+                xdom = "real"
+            f = Delta("y", py, w)
+            g = Delta("z", Tensor(np.array(1), OrderedDict(), 3)) if c["triple"] else None
+            builds = {"d+f": (lambda: d + f), "f+d": (lambda: f + d)}
+            if g is not None:
+                builds = {"d+f+g": (lambda: d + f + g), "g+f+d": (lambda: g + f + d), "d+(f+g)": (lambda: d + (f + g))}
+    except DECLINE:
+        return None
+    order = [("b", nb_)] if c["has_b"] else []
+    pxb = np.broadcast_to(px, bshape) if bshape else np.asarray(px)
+    want = np.empty(bshape)
+    ypt = np.empty(bshape)
+    for idx in itertools.product(*[range(k) for k in bshape]):
+        k = pxb[idx]
+        want[idx] = wpy(idx, k)
+        ypt[idx] = ppy(idx, k)
+    xt = Tensor(np.asarray(pxb), binp, xdom)
+    yt, yoff = Tensor(ypt, binp), Tensor(ypt + 0.75, binp)
+    zsub = {"z": Tensor(np.array(1), OrderedDict(), 3)} if c["triple"] else {}
+    tables = {}
+    for oname, build in builds.items():
+        try:
+            with np.errstate(all="ignore"):
+                tot = build()
+                obs = {"joint": tot(x=xt, y=yt, **zsub), "joint-off": tot(x=xt, y=yoff, **zsub)}
+                red = tot.reduce(ops.logaddexp, "x")
+                if "x" in red.inputs:
+                    problems.append((f"C14.delta-dep-inputs", f"{oname}: x is still a free input after reducing the Delta "
+                                     f"that binds it: {sorted(red.inputs)}", "no x", str(sorted(red.inputs))))
+                    continue
+                obs["reduced"] = red(y=yt, **zsub)
+                obs["reduced-off"] = red(y=yoff, **zsub)
+                for lab, r in obs.items():
+                    t = table(r, order)
+                    if t is None:
+                        counts.append(f"{lab}-lazy")
+                        continue
+                    tables[(oname, lab)] = t
+                    exp_ = want if not lab.endswith("off") else np.full(bshape, -np.inf)
+                    if np.array_equal(np.isinf(t), np.isinf(exp_)) and np.allclose(
+                            np.where(np.isinf(t), 0, t), np.where(np.isinf(exp_), 0, exp_), rtol=1e-9, atol=1e-12):
+                        counts.append(f"{lab}-ok")
+                    else:
+                        problems.append((f"C14.delta-dep-{lab}", f"{oname} (dependence through the {c['dep']}): {lab} value "
+                                         f"at the point / off the point", str(np.asarray(exp_).tolist()), str(t.tolist())))
+        except DECLINE + (KeyError,) as ex:
+            counts.append(f"{oname}-declined:{type(ex).__name__}")
+    return problems, counts
+
+
 def delta_streams(ctx, use_driver=True):
     rng = ctx.rng
     n = 200 if ctx.tier == "quick" else 2500
@@ -1902,6 +2021,8 @@ def delta_streams(ctx, use_driver=True):
         guarded(ctx, "delta-joint", delta_joint_case, ctx)
     for _ in range(160 if ctx.tier == "quick" else 2000):
         guarded(ctx, "delta-arith", delta_arith_case, ctx)
+    for _ in range(70 if ctx.tier == "quick" else 1500):
+        guarded(ctx, "delta-dep", delta_dep_case, ctx)
 
 
 # --------------------------------------------------------------------------------------
@@ -2986,7 +3107,9 @@ def correspond(ctx):
         "names; discrete / real / vector; batched, plain or free-variable points; log-density 0 or not) combined by add AND "
         "sub, both operand orders, with a Number, a table over the variable, a lazy expression of x, a Gaussian in x, or a "
         "Tensor not mentioning x; value at / off the point, mass, Integrate against 1 and an integrand vs the point-wise "
-        "definition.  Non-trivial = a row with >= 2 positive cells (sample), domain size >= 2 "
+        "definition.  Dependent Deltas: Delta(x) + Delta(y, point(x), log-density(x)) (table indexed by a discrete x, affine in "
+        "a real x), both operand orders and triples: joint value at / off the point, x gone after reducing it, value = w[b, k].  "
+        "Non-trivial = a row with >= 2 positive cells (sample), domain size >= 2 "
         "(Delta), >= 2 sampled dimensions or a conditioning block (Gaussian); distinct by full case content.")
     radix_box(ctx)
     sample_streams(ctx)
@@ -3038,6 +3161,7 @@ def search(ctx, broken):
         delta_multi_case(ctx, use_driver=False)
         delta_joint_case(ctx)
         delta_arith_case(ctx)
+        delta_dep_case(ctx)
         if found():
             return
     for _ in range(600):
